@@ -13,6 +13,7 @@ import (
 	"time"
 
 	"github.com/IrineSistiana/mosproxy/internal/dnsmsg"
+	"github.com/IrineSistiana/mosproxy/internal/pool"
 	"pgregory.net/rapid"
 	"vfkit"
 )
@@ -133,6 +134,8 @@ func vfNameOracle(t vfFataler, in []byte) {
 			if len(buf) > 0 && len(r) == 0 {
 				panic("empty readable form")
 			}
+			// the callers (query log, regexp matcher) hand the text back to the buffer pool when they are done
+			pool.ReleaseBuf(r)
 		}
 		cp := append([]byte(nil), buf...)
 		lerr := dnsmsg.ToLowerName(cp)
@@ -182,7 +185,26 @@ func TestVfC01Names(t *testing.T) {
 	defer vfkit.Flush()
 	rapid.Check(t, func(t *rapid.T) {
 		var in []byte
-		switch rapid.IntRange(0, 3).Draw(t, "kind") {
+		switch rapid.IntRange(0, 4).Draw(t, "kind") {
+		case 4:
+			// valid names of 200-255 octets whose labels consist of one drawn kind of octet (the text form of an octet is
+			// 1, 2 or 4 characters long)
+			oc := rapid.SampledFrom([]byte{0xFF, 0x00, '.', '\\', 'a', 0x7F, ' '}).Draw(t, "octet")
+			for left := rapid.IntRange(200, 254).Draw(t, "total"); left > 1; {
+				l := min(63, left-1, rapid.IntRange(1, 63).Draw(t, "labelLen"))
+				if rapid.Bool().Draw(t, "maxLabel") {
+					l = min(63, left-1)
+				}
+				in = append(in, byte(l))
+				for i := 0; i < l; i++ {
+					if rapid.IntRange(0, 15).Draw(t, "other") == 0 {
+						in = append(in, rapid.Byte().Draw(t, "v"))
+					} else {
+						in = append(in, oc)
+					}
+				}
+				left -= l + 1
+			}
 		case 0:
 			in = rapid.SliceOfN(rapid.Byte(), 0, 300).Draw(t, "raw")
 		case 1:
